@@ -1,6 +1,7 @@
 package props
 
 import (
+	"bytes"
 	"context"
 	"encoding/json"
 	"fmt"
@@ -21,6 +22,7 @@ import (
 	kbprom "github.com/kubewharf/kubebrain/pkg/metrics/prometheus"
 
 	"verif/sim/rt"
+	"verif/sim/simkv"
 	"verif/sim/world"
 )
 
@@ -68,11 +70,32 @@ type raceScenario struct {
 	Fault   float64 `json:"fault"`
 	Cache   int     `json:"cache"`
 	Millis  int     `json:"millis"`
-	TTL     int     `json:"event_ttl_s,omitempty"`      // TTL of Event records (seconds): expiry timers fire during the run
-	Lazy    int     `json:"lazy_watchers,omitempty"`    // watchers that never read: the hub has to drop them
-	Prom    bool    `json:"real_prometheus,omitempty"`  // the production metrics client on a registry of this run's own
-	Skips   bool    `json:"skipped_prefixes,omitempty"` // the node is configured with prefixes that compaction leaves alone
-	Follow  bool    `json:"follower_reads,omitempty"`   // a second node over the same engine serves reads, adopting the first one's revision before each
+	TTL     int     `json:"event_ttl_s,omitempty"`        // TTL of Event records (seconds): expiry timers fire during the run
+	Lazy    int     `json:"lazy_watchers,omitempty"`      // watchers that never read: the hub has to drop them
+	Prom    bool    `json:"real_prometheus,omitempty"`    // the production metrics client on a registry of this run's own
+	Parts   bool    `json:"partitioned_engine,omitempty"` // the engine reports several partitions: scans and compactions run one worker per partition
+	Skips   bool    `json:"skipped_prefixes,omitempty"`   // the node is configured with prefixes that compaction leaves alone
+	Follow  bool    `json:"follower_reads,omitempty"`     // a second node over the same engine serves reads, adopting the first one's revision before each
+}
+
+// partKV makes an engine report three partitions, split at the index records of two of the workloads' keys
+// (what an engine that splits at existing keys can produce): the scanner then runs one worker per partition.
+type partKV struct {
+	storage.KvStorage
+}
+
+func (p *partKV) GetPartitions(ctx context.Context, start, end []byte) ([]storage.Partition, error) {
+	b1 := simkv.EncodeKey([]byte(prefix+"/g2/k1"), 0)
+	b2 := simkv.EncodeKey([]byte(prefix+"/k2"), 0)
+	var out []storage.Partition
+	cur := start
+	for _, b := range [][]byte{b1, b2} {
+		if bytes.Compare(b, cur) > 0 && bytes.Compare(b, end) < 0 {
+			out = append(out, storage.Partition{Start: cur, End: b})
+			cur = b
+		}
+	}
+	return append(out, storage.Partition{Start: cur, End: end}), nil
 }
 
 func genRace(r *rt.Rand, idx int) raceScenario {
@@ -97,6 +120,7 @@ func genRace(r *rt.Rand, idx int) raceScenario {
 	// (one run per worker process: no goroutine of an earlier run is alive when the registry is replaced)
 	sc.Prom = idx%2 == 0
 	sc.Skips = idx%3 == 1
+	sc.Parts = idx%4 == 1 && sc.Engine == "memkv"
 	if idx%6 == 2 {
 		sc.Engine, sc.Follow = "memkv", true
 	}
@@ -115,6 +139,9 @@ func runRace(sc raceScenario) (ops int64) {
 	var kv storage.KvStorage = inner
 	if sc.Fault > 0 {
 		kv = &faultKV{KvStorage: inner, rng: rand.New(rand.NewSource(int64(sc.Seed))), rate: sc.Fault}
+	}
+	if sc.Parts {
+		kv = &partKV{KvStorage: kv}
 	}
 	if sc.TTL > 0 {
 		defer backend.SetEventsTTLForSim(backend.SetEventsTTLForSim(int64(sc.TTL)))
@@ -230,8 +257,14 @@ func runRace(sc raceScenario) (ops int64) {
 				default:
 					wctx, cancel := context.WithCancel(ctx)
 					start := uint64(0)
-					if r.Intn(2) == 0 {
+					switch r.Intn(3) {
+					case 0:
 						start = b.GetCurrentRevision()
+					case 1:
+						// a little back: replayed from the event cache while the sequencer goes on filling it
+						if cur := b.GetCurrentRevision(); cur > 1004 {
+							start = cur - uint64(r.Intn(4))
+						}
 					}
 					ch, err := b.Watch(wctx, prefix+"/", start)
 					if err != nil {
